@@ -77,8 +77,10 @@ def gen_script(rnd, long=False):
                 ops.append(["send", rnd.choice(S.KINDS), "idem", rnd.choice(["t1", "t2", "t3"])])
             ops.append(["turns", rnd.randint(0, 3)])
             ops.append(["unstall"])
-        elif c < 0.95:
+        elif c < 0.94:
             ops.append(["q"])
+        elif c < 0.95:
+            ops.append(rnd.choice([["slow_conn", rnd.choice([0.5, 2.5])], ["reset"]]))
         elif c < 0.975:
             # a message no frame has room for (its header may well encode): dropped, and
             # nothing of it may reach the wire
@@ -111,6 +113,17 @@ def directed():
                                                for i in range(n)]
                    + [["on_connect_send", "quick_timer", "idem"], ["adv", 3.0],
                       ["send", "ac_ctrl", "idem", "inline"]])
+    # reset_connection() from another task (what the heartbeat does) while a connection
+    # subscriber is still busy with connected=True; messages accepted before, during and after
+    for busy in (1.0, 3.0):
+        for when in (0.5, busy + 0.5):
+            out.append([["net", "refuse", 0.0], ["slow_conn", busy],
+                        ["send", "zone_ctrl", "long", "inline"], ["adv", 2.0 + when],
+                        ["reset"], ["send", "ac_ctrl", "long", "t1"], ["adv", busy + 3.0],
+                        ["send", "quick_timer", "long", "inline"], ["adv", 3.0]])
+            out.append([["q"], ["slow_conn", busy], ["fin"], ["adv", when], ["reset"],
+                        ["send", "ac_ctrl", "idem", "t1"], ["adv", busy + 5.0],
+                        ["send", "zone_ctrl", "idem", "inline"], ["adv", 3.0]])
     # an unencodable message between good ones, sent at once and held for the next connection
     for how in ("struct", "value"):
         out.append([["q"], ["send", "zone_ctrl", "idem", "inline"], ["send_bad", how, "inline"],
@@ -275,9 +288,16 @@ def check(gen, run):
     first_seen = {}
     for seq, t, cid, s in seen_serials:
         first_seen.setdefault(s, t)
+    # (a connection subscriber of the application that is still busy with connected=True, or
+    # a reset_connection() of the application's own, delays the flush by the application's
+    # doing: only "transmitted at all, before the expiry" is judged then)
+    own_delay = any(k == "SUB.conn_slow" or (k == "API.call" and d.get("name") == "reset")
+                    for _, _, k, d in log.events)
+    if own_delay:
+        obs["flush_delayed_by_the_application"] = 1
     for r, when in expected:
         t = first_seen.get(r["serial"])
-        if t is not None and abs(t - when) > 1e-9:
+        if t is not None and abs(t - when) > 1e-9 and not own_delay:
             v("message-not-transmitted-as-soon-as-connected", serial=r["serial"], at=t,
               expected_at=when)
     # pids
